@@ -203,10 +203,10 @@ theorem updateSub_false (p : Parent) (cur des : Obj) :
     updateSub p false cur des = .ok { cur with owners := addOwner (withPkg p cur.owners) (asOwner p) } := by
   simp [updateSub]
 
-theorem validateOne_cdinv (rejects : Obj → Bool) (fault : Fault) (p : Parent) (control : Bool)
+theorem validateGo_cdinv (rejects : Obj → Bool) (fault : Fault) (p : Parent) (control : Bool)
     (s : Store) (i : Nat) (d : Desired) (cd : CD)
-    (h : (validateOne rejects fault p control s i d).2 = .ok cd) : CDInv s cd := by
-  unfold validateOne at h
+    (h : (validateGo rejects fault p control s i d).2 = .ok cd) : CDInv s cd := by
+  unfold validateGo at h
   split at h <;> try (simp at h; done)
   split at h
   · split at h
@@ -243,6 +243,14 @@ theorem validateOne_cdinv (rejects : Obj → Bool) (fault : Fault) (p : Parent) 
         refine ⟨c₀, hmem, ?_, rfl, rfl, rfl, fun u hu => hasUid_addOwner _ _ _ (hasUid_withPkg p _ _ hu),
           fun u hu => ctrl_withPkg p _ _ (ctrl_addOwner_of_not _ _ _ rfl hu)⟩
         simp [desiredObj, hkey]
+
+theorem validateOne_cdinv (rejects : Obj → Bool) (fault : Fault) (p : Parent) (control : Bool)
+    (s : Store) (i : Nat) (d : Desired) (cd : CD)
+    (h : (validateOne rejects fault p control s i d).2 = .ok cd) : CDInv s cd := by
+  unfold validateOne at h
+  split at h
+  · simp at h
+  · exact validateGo_cdinv rejects fault p control s i d cd h
 
 theorem validateAll_cdinv (rejects : Obj → Bool) (fault : Fault) (p : Parent) (control : Bool)
     (s : Store) (xs : List (Nat × Desired)) (cds : List (Nat × CD))
@@ -352,10 +360,10 @@ theorem establishAll_step (rejects : Obj → Bool) (fault : Fault) (p : Parent) 
 /-- Master invariant of Establish: whatever the faults and the completion orders,
 the final store is well formed and arises from the initial one by `QE`-replacements
 and `CE`-creations only. -/
-theorem establish_inv (rejects : Obj → Bool) (fault : Fault) (p : Parent) (control : Bool)
+theorem establishCore_inv (rejects : Obj → Bool) (fault : Fault) (p : Parent) (control : Bool)
     (s : Store) (objs : List Desired) (vorder eorder : List Nat) (hw : WF s) :
-    EInv p control s (establish rejects fault p control s objs vorder eorder).1 := by
-  unfold establish
+    EInv p control s (establishCore rejects fault p control s objs vorder eorder).1 := by
+  unfold establishCore
   have h1 := validateAll_store rejects fault p control s (pick objs vorder)
   split
   · rename_i s1 cds heq
@@ -369,5 +377,14 @@ theorem establish_inv (rejects : Obj → Bool) (fault : Fault) (p : Parent) (con
   · rename_i s1 heq
     rw [heq] at h1; simp only at h1; subst h1
     exact EInv.refl p control s1 hw
+
+theorem establish_inv (rejects : Obj → Bool) (fault : Fault) (p : Parent) (control : Bool)
+    (s : Store) (objs : List Desired) (vorder eorder : List Nat) (hw : WF s) :
+    EInv p control s (establish rejects fault p control s objs vorder eorder).1 := by
+  unfold establish
+  split
+  · exact EInv.refl p control s hw
+  · exact EInv.refl p control s hw
+  · exact establishCore_inv rejects fault p control s objs vorder eorder hw
 
 end Xp.C16
